@@ -123,7 +123,7 @@ def run(prop: str, tier: str) -> int:
     for s in strings([b"^", b'"', b"\r", b"\n", b"x"], 6 if tier == "quick" else 7):
         events.append(ev_caret(shell, s))
     ncaret = len(events)
-    cmd_alpha = [b"(", b")", b"x", b'"', b" ", b"^", b"\x00"]
+    cmd_alpha = [b"(", b")", b"x", b'"', b" ", b"^", b"\x00", b'cmd"']
     for pre in (b"cmd", b"(cmd ", b'cmd" /c', b"c^md.exe /c "):
         for s in strings(cmd_alpha, 4 if tier == "quick" else 5):
             events.append(ev_cmd(shell, re, pre + s))
